@@ -167,8 +167,14 @@ def rule_R2(ctx, f):
             be = b.bool_edges(bi)
             if be and be[0][0] == "binop" and be[0][1] in ("Ne", "Eq"):
                 x, y = be[0][2], be[0][3]
-                def from_lookup(t):
-                    return any(isinstance(s, tuple) and len(s) == 4 and s[0] == "call" and s[3] == g.bb for s in subterms(t))
+                def from_lookup(t, depth=0):
+                    for s in subterms(t):
+                        if isinstance(s, tuple) and len(s) == 4 and s[0] == "call" and s[3] == g.bb:
+                            return True
+                        # `let known = match global.get(name) { Some(h) => *h, None => .. }`: a local joining the looked-up hash with a fallback
+                        if isinstance(s, tuple) and len(s) == 2 and s[0] == "var" and depth < 3 and any(from_lookup(a_, depth + 1) for a_ in b.var_alts(s[1])):
+                            return True
+                    return False
                 def is_dim(t):
                     return _desc_elem(b, t) == "dim_hash"
                 if (from_lookup(x) and is_dim(y)) or (from_lookup(y) and is_dim(x)):
@@ -210,6 +216,33 @@ def rule_R2(ctx, f):
                             okb = rejecting(b, bad) and on_every_iteration(g.bb)
         # same-call names: either the lookup falls back to the local map, or the local map does not exist (direct writes are R1's concern)
         local_ins = [c for c in b.calls_to("HashMap::insert") if _desc_elem(b, c.args[1]) == "fq_name" and self_field_of(c.args[0]) is None]
+        # `*local.entry(name).or_insert(desc.dim_hash)`: inserts the name when it is new to this call and yields the hash recorded for it otherwise
+        local_ent = [c for c in b.calls_to("HashMap::entry") if _desc_elem(b, c.args[1]) == "fq_name" and self_field_of(c.args[0]) is None
+                     and any(is_call(o.args[0] and peel(o.args[0], transparent=[]), "HashMap::entry") and peel(o.args[0], transparent=[])[3] == c.bb and _desc_elem(b, o.args[1]) == "dim_hash"
+                             for o in b.calls_to("Entry::or_insert"))]
+        if local_ent and not local_ins:
+            oi = [o for o in b.calls_to("Entry::or_insert") if peel(o.args[0], transparent=[])[3] == local_ent[0].bb][0]
+            # the recorded hash takes part in the comparison exactly when the registry does not know the name: it is an alternative of the compared local
+            def reaches_cmp(t):
+                for bi in b.reach(g.bb):
+                    be_ = b.bool_edges(bi)
+                    if be_ and be_[0][0] == "binop" and be_[0][1] in ("Ne", "Eq"):
+                        for side in (be_[0][2], be_[0][3]):
+                            todo, seen = [side], 0
+                            while todo and seen < 20:
+                                u = todo.pop()
+                                seen += 1
+                                for s_ in subterms(u):
+                                    if isinstance(s_, tuple) and len(s_) == 4 and s_[0] == "call" and s_[3] == t.bb:
+                                        return True
+                                    if isinstance(s_, tuple) and len(s_) == 2 and s_[0] == "var":
+                                        todo.extend(b.var_alts(s_[1]))
+                return False
+            si_g = b.switch_info(g.target) if g.target is not None else None
+            none_t = [t for v, t in si_g[1] if v == 0] if si_g else []
+            fallback = reaches_cmp(oi) and bool(none_t) and b.edge_dominates(g.target, none_t[0], oi.bb)
+            ctx.ob(rid, "register|check-b-same-call", fallback,
+                   "names introduced earlier by the same collector must take part in the dim-hash comparison (lookup must fall back to the local map)", site=site)
         if local_ins:
             local_map = peel(local_ins[0].args[0])
             fallback = False
@@ -403,14 +436,23 @@ def rule_R3(ctx, f):
     ok = len(col) == 1 and hasattr(col[0], "bb") and col[0].matches(["VacantEntry::insert", "HashMap::insert"]) and b.dominates(vac, col[0].bb) and any(s == P2 for s in subterms(col[0].args[-1]))
     ctx.ob(rid, "register|commit-collector", ok, "on success the collector passed in must be inserted into the vacant entry", site=col[0].span if col and hasattr(col[0], "span") else b.raw["span"]["at"])
     dims = by_field.get("dim_hashes_by_name", [])
-    names_local = [peel(c.args[0]) for c in b.calls_to("HashMap::insert") if self_field_of(c.args[0]) is None]
+    names_local = [peel(c.args[0]) for c in b.calls_to("HashMap::insert") if self_field_of(c.args[0]) is None] + \
+        [peel(c.args[0]) for c in b.calls_to("HashMap::entry") if self_field_of(c.args[0]) is None and _desc_elem(b, c.args[1]) == "fq_name"]
     ok = len(dims) == 1 and hasattr(dims[0], "bb") and b.dominates(vac, dims[0].bb) and names_local and \
         (peel(dims[0].args[1]) == names_local[0] or _same_entries_owned(f, dims[0].args[1], names_local[0]))
     ctx.ob(rid, "register|commit-dims", ok, "on success dim_hashes_by_name must receive exactly the names collected during this call", site=dims[0].span if dims and hasattr(dims[0], "span") else b.raw["span"]["at"])
     if names_local:
         li = [c for c in b.calls_to("HashMap::insert") if self_field_of(c.args[0]) is None]
-        ctx.ob(rid, "register|local-dims-content", len(li) == 1 and _desc_elem(b, li[0].args[1]) == "fq_name" and _desc_elem(b, li[0].args[2]) == "dim_hash",
-               "the local map must record (fq_name, dim_hash) of each descriptor", site=li[0].span)
+        if li:
+            okl = len(li) == 1 and _desc_elem(b, li[0].args[1]) == "fq_name" and _desc_elem(b, li[0].args[2]) == "dim_hash"
+            lsite = li[0].span
+        else:
+            # local.entry(fq_name).or_insert(dim_hash)
+            le = [c for c in b.calls_to("HashMap::entry") if self_field_of(c.args[0]) is None and _desc_elem(b, c.args[1]) == "fq_name"]
+            oi = [o for o in b.calls_to("Entry::or_insert") if le and peel(o.args[0], transparent=[]) == le[0].result_term()]
+            okl = len(le) == 1 and len(oi) == 1 and _desc_elem(b, oi[0].args[1]) == "dim_hash"
+            lsite = le[0].span if le else b.raw["span"]["at"]
+        ctx.ob(rid, "register|local-dims-content", okl, "the local map must record (fq_name, dim_hash) of each descriptor", site=lsite)
     ctx.ob(rid, "register|no-other-writes", set(by_field) <= {"desc_ids", "collectors_by_id", "dim_hashes_by_name"}, "register writes only the three admission fields (found %s)" % sorted(by_field))
 
 
